@@ -10,7 +10,8 @@ import tlc
 # candidate entries; groups of mutually exclusive alternatives avoid module-name
 # collisions (tests.py vs tests/ in one directory would both be module "tests")
 TOP_ALT = [[], ['tests.py'], ['tests/__init__.py', 'tests/test_a.py', 'tests/helper.py',
-                             'tests/notes.txt', 'tests/tests.py', 'tests/ftests.py', 'tests/test_z.py']]
+                             'tests/notes.txt', 'tests/tests.py', 'tests/ftests.py', 'tests/test_z.py',
+                             'tests/test-api.py']]
 # the same with compiled files (legacy layout: x.pyc beside / instead of x.py,
 # what `compileall -b` leaves behind); tests.py + tests.pyc is ONE module
 TOP_ALT_C = [['tests.pyc'], ['tests.py', 'tests.pyc'], ['tests.py', 'tests.pyc', 'tests.pyo'],
@@ -27,7 +28,27 @@ OPTIONAL = [
     '__pycache__/tests.py', 'CVS/tests.py', 'skipme/tests.py',
     'tests2/test_c.py', 'tests2/__init__.py', 'deep/tests/test_d.py', 'deep/tests/tests.py',
     'Zed/tests.py', '_under/tests.py', 'a1/tests.py', 'fix[v1]/tests.py',
+    # file names that are no identifiers: inside a tests package (with / without
+    # __init__.py) and as plain files the tests pattern may match
+    'pkg/tests/test-b2.py', 'pkg/tests/test b.py', 'pkg/tests/atest-x.py', 'tests2/test-c.py',
+    'deep/tests/test-d.py', 'sub/my-tests.py',
 ]
+# symlinked directories (the target lives outside the tree): link path -> what
+# the target holds; names that are identifiers, that are not, names of
+# IGNORE_FOLDERS and names given (in some runs) to --ignore_dir
+LINKS = {
+    'linked': ['tests.py', 'lib/tests.py', 'my-dir/tests.py'],
+    'sub/lnk': ['tests/__init__.py', 'tests/test_l.py', 'tests/test-l2.py', 'tests/helper.py'],
+    'pkg/vend': ['tests.py', 'ftests.py'],
+    'aaa_first': ['tests.py'],
+    'vendor-libs': ['tests.py', 'lib/tests.py'],
+    'sub/my.link': ['tests.py', 'pk/tests/__init__.py', 'pk/tests/test_m.py'],
+    'pkg/node_modules': ['tests.py', 'tool/tests.py'],
+    'sub/__pycache__': ['tests.py'],
+    'deep/skipme': ['tests/__init__.py', 'tests/test_s.py', 'inner/tests.py'],
+    'pkg/fix[v1]': ['tests.py'],
+    'Zed/CVS': ['tests.py'],
+}
 OPTIONAL_C = [
     'ftests.pyc', 'other.pyc', 'sub/tests.pyc', 'sub/tests.pyo', 'sub/ftests.pyc', 'sub/inner/tests.pyc',
     'pkg/__init__.pyc', 'pkg/tests/__init__.pyc', 'pkg/tests/test_b.pyc', 'pkg/tests/atest.pyc',
@@ -69,6 +90,10 @@ def gen_case(cid, rng):
         for p in OPTIONAL_C:
             if rng.random() < dens:
                 paths[p] = 'file'
+    links = {}
+    if rng.random() < 0.3:
+        for lp in rng.sample(sorted(LINKS), rng.randint(1, 4)):
+            links[lp] = {'paths': {q: 'file' for q in LINKS[lp] if rng.random() < 0.8 or q == LINKS[lp][0]}}
     rootsel = rng.choice(['top', 'top', 'dup', 'nested', 'nested-rev'])
     # the nested root may itself sit where the outer walk never goes (ignored
     # or non-identifier directory): it is still a search path of its own
@@ -127,7 +152,7 @@ def gen_case(cid, rng):
             roots = list(roots) + [d]
             root_pkgs = {d: 'stitchpkg'}
     return {'id': cid, 'paths': paths, 'roots': roots, 'args': args, 'pat': pat,
-            'ignore': ignore, 'mpats': mp, 'walk': walk, 'root_pkgs': root_pkgs,
+            'ignore': ignore, 'mpats': mp, 'walk': walk, 'root_pkgs': root_pkgs, 'links': links,
             'usecompiled': usec, 'compiled': sorted(p for p in paths if p.endswith('.pyc'))}
 
 
@@ -137,9 +162,12 @@ def run(chk, tier, seed, replay=None):
                 'needs __init__.py; --usecompiled: a compiled file counts only where its source is absent, '
                 '__init__.pyc makes a package, one file per module) over every parent-closed subset of a '
                 '17-entry universe x 4 root lists x {none, --usecompiled}. '
-                '(2) real runs: trees drawn from a 62-entry universe (tests.py / tests package / f?tests, '
+                '(2) real runs: trees drawn from a 69-entry universe (tests.py / tests package / f?tests, '
                 'helper and non-.py files, namespace and regular packages, directories named 1bad, my-dir, '
-                '.git, node_modules, __pycache__, CVS, fix[v1], --ignore_dir, mixed-case and underscore names; a third '
+                '.git, node_modules, __pycache__, CVS, fix[v1], --ignore_dir, mixed-case and underscore names; files whose stem is no '
+                'identifier (test-api.py, "test b.py", my-tests.py) inside tests packages and beside them; 30% of the trees with 1-4 symlinked '
+                'directories (targets outside the tree, holding tests.py / a tests package / sub-directories) named as identifiers, '
+                'vendor-libs, my.link, node_modules, __pycache__, CVS, fix[v1] and skipme with and without --ignore_dir skipme; a third '
                 'of the trees with real byte-code made by py_compile beside its source, without it, as '
                 '__init__.pyc, plus .pyo look-alikes, run with --usecompiled / -k / neither) x '
                 'default / four alternative --tests-pattern and --test-file-pattern settings x roots {top}, {top, top}, '
@@ -150,7 +178,9 @@ def run(chk, tier, seed, replay=None):
                 'tests; TLC compares the import sequence and the modules of the listed tests '
                 'with Discovery!Imported; distinct = distinct (tree, options)')
     chk.assumptions += ['imports of parent packages\' __init__.py are a side effect and not compared',
-                        'symlinks and non-UTF-8 names are outside the universe',
+                        'a symlinked directory counts as a directory with the target\'s content; within one directory the walk visits '
+                        'the symlinked sub-directories (sorted) before the others (sorted); symlinked files, links into the tree and '
+                        'non-UTF-8 names are outside the universe',
                         'universes are kept free of module-name collisions (tests.py next to tests/)']
     rng = random.Random(seed * 7919 + 14)
     if replay:
@@ -170,7 +200,7 @@ def run(chk, tier, seed, replay=None):
     for c, r in zip(cases, results):
         T = fstree.tree_record(r['paths'], c['roots'], mpats=c['mpats'], ignore_dir=c['ignore'],
                                walk=c.get('walk'), root_pkgs=c.get('root_pkgs'),
-                               usecompiled=c.get('usecompiled', False), **c['pat'])
+                               usecompiled=c.get('usecompiled', False), linkdirs=r['linkdirs'], **c['pat'])
         crashed = ''
         if r['rc'] != 0:
             crashed = 'rc=%s %s' % (r['rc'], r['stderr'].strip().splitlines()[-1:] or '')
@@ -196,6 +226,12 @@ def run(chk, tier, seed, replay=None):
     chk.extra['runs_with_source_beside_compiled_candidate'] = sum(
         bool(c.get('usecompiled')) and any(p.endswith('.pyc') and p[:-1] in rec['imported'] for p in c['paths'])
         for c, rec in zip(cases, recs))
+    chk.extra['runs_with_symlinked_directories'] = sum(bool(c.get('links')) for c in cases)
+    chk.extra['runs_that_loaded_a_module_below_a_symlinked_directory'] = sum(
+        any(p.startswith(tuple(l + '/' for l in c.get('links') or ())) for p in rec['imported'])
+        for c, rec in zip(cases, recs) if c.get('links'))
+    chk.extra['runs_that_loaded_a_file_with_a_non_identifier_stem'] = sum(
+        any(not fstree.IDENT.match(os.path.basename(p)[:-3]) for p in rec['imported'] if p.endswith('.py')) for rec in recs)
     chk.extra['runs_with_package_given_as_path'] = sum(
         any(a in ('-s', '--package', '--dir') and ('/' in b or '\\' in b) for a, b in zip(c['args'], c['args'][1:]))
         for c in cases)
